@@ -12,6 +12,12 @@ def main():
     out = os.fdopen(os.dup(1), "w", buffering=1)
     os.dup2(2, 1)
     sys.stdout = sys.stderr
+    cover = None
+    if os.environ.get("VERIF_COVER") == "1":
+        from . import cover as _cover
+
+        if _cover.start():
+            cover = _cover
     mod = importlib.import_module(f"vf.props.{prop.lower()}")
     if hasattr(mod, "worker_init"):
         mod.worker_init()
@@ -36,6 +42,8 @@ def main():
             except Exception as e:
                 s = json.dumps(dict(stream=task["stream"], i=i, id=f"{task['stream']}:{i}", verdict="inconclusive", reason="unserialisable:" + repr(e), counters={}))
             out.write(s + "\n")
+        if cover is not None:
+            out.write(json.dumps(dict(coverage=cover.drain())) + "\n")
         out.write('{"done": true}\n')
         out.flush()
 
